@@ -234,7 +234,10 @@ async fn handle_stream(
             };
         }
 
-        let tx = ts.get_mut(topic).unwrap();
+        // Only a handle to the topic's registration channel leaves the critical section:
+        // waiting for room in one topic's channel must not block registrations on all topics
+        let mut tx = ts.get(topic).unwrap().clone();
+        drop(ts);
 
         // A topic serves one messaging pattern, fixed by its first registration. Refuse a
         // stream that asks for the other one instead of accepting and then abandoning it.
@@ -243,7 +246,6 @@ async fn handle_stream(
             Frame::RegisterPublisher(_) | Frame::RegisterSubscriber(_)
         );
         if wants_pubsub != matches!(tx, Sender::Pubsub(_)) {
-            drop(ts);
             let payload = ErrorPayload {
                 code: TOPIC_PATTERN_MISMATCH,
                 message: "Topic is already in use with the other messaging pattern".into(),
